@@ -73,15 +73,18 @@ type airRun struct {
 	mu      sync.Mutex
 }
 
-func (a *airRun) restartMachine(r *kit.Run) {
+func (a *airRun) restartMachine(r *kit.Run) error {
 	air := a.w.Airs[a.p]
 	if err := air.Restart(); err != nil {
-		r.Infra("restart machine: %v", err)
+		// a machine that cannot be reopened from its own database with the operator's password
+		// does not "carry on": the ceremony fails (judged by cmpAir)
+		return fmt.Errorf("the machine cannot be reopened from its database: %w", err)
 	}
 	// HowTo: run replay_operations_log exactly once after a restart
 	if err := air.M.ReplayOperationsLog(a.round); err != nil && !strings.Contains(err.Error(), "operation log not found") {
 		a.obs.Detail = "replay failed: " + err.Error()
 	}
+	return nil
 }
 
 func (a *airRun) operateP(r *kit.Run, op *types.Operation) error {
@@ -98,7 +101,9 @@ func (a *airRun) operateP(r *kit.Run, op *types.Operation) error {
 	res, err := air.Process(op)
 	var killed *world.MachineKilled
 	if errors.As(err, &killed) {
-		a.restartMachine(r)
+		if rerr := a.restartMachine(r); rerr != nil {
+			return rerr
+		}
 		// the operator looks for the result file; the replay re-creates it for logged operations
 		if bz, ferr := os.ReadFile(air.ResultFile(op)); ferr == nil && len(bz) > 0 {
 			var fromFile types.Operation
@@ -119,7 +124,9 @@ func (a *airRun) operateP(r *kit.Run, op *types.Operation) error {
 	}
 	for _, k := range a.plan.CleanAfter {
 		if k == a.step {
-			a.restartMachine(r)
+			if rerr := a.restartMachine(r); rerr != nil {
+				return rerr
+			}
 		}
 	}
 	return nil
@@ -244,6 +251,10 @@ func runAir(r *kit.Run, n, t, p int, plan airPlan) airObs {
 		}
 	}
 	for i, air := range w.Airs {
+		if air.M == nil { // could not be reopened
+			a.obs.Keyrings[i] = [2]string{"none", "machine not running"}
+			continue
+		}
 		krs, err := air.M.GetBLSKeyrings()
 		if err != nil || krs[round] == nil {
 			a.obs.Keyrings[i] = [2]string{"none", fmt.Sprint(err)}
@@ -252,6 +263,9 @@ func runAir(r *kit.Run, n, t, p int, plan airPlan) airObs {
 		cs, _ := oracle.PolyCommitBytes(krs[round].PubPoly)
 		sh, _ := krs[round].Share.V.MarshalBinary()
 		a.obs.Keyrings[i] = [2]string{fmt.Sprintf("%x", cs), fmt.Sprintf("%d:%x", krs[round].Share.I, sh)}
+	}
+	if w.Airs[p].M == nil {
+		return a.obs
 	}
 	if fmt.Sprintf("%x", w.Airs[p].PubKeyBytes()) != a.obs.PubKey {
 		a.obs.PubKey = "changed-after-restart"
